@@ -49,6 +49,10 @@ E = {
     'undef-symbol-cleanup': ('V', 'VALIDATION_ERROR', {'cleanup': ['run % x @[UNDEFINED_SYM]@']}),
     'missing-home-file': ('V', 'VALIDATION_ERROR', {'setup': ['copy no-such-file-in-home']}),
     've-pre-assert': ('V', 'VALIDATION_ERROR', {'assert': ['stub pre VE']}),
+    've-pre-cleanup': ('V', 'VALIDATION_ERROR', {'cleanup': ['stub pre VE']}),
+    've-pre-before-assert': ('V', 'VALIDATION_ERROR', {'before-assert': ['stub pre VE']}),
+    'missing-program-cleanup': ('V', 'VALIDATION_ERROR', {'cleanup': ['run -rel-home no-such-program']}),
+    'missing-home-file-before-assert': ('V', 'VALIDATION_ERROR', {'before-assert': ['file g.txt = -contents-of -rel-home no-such-file']}),
     'ie-pre-sds': ('V', 'INTERNAL_ERROR', {'before-assert': ['stub pre EXC']}),
     'act-syntax': ('V', 'SYNTAX_ERROR', {'act': ["% atc 'unterminated"]}),
     'instr-syntax': ('P', 'SYNTAX_ERROR', {'setup': ['def nosuchtype X = 1']}),
